@@ -205,6 +205,7 @@ func init() {
 			// re-check before every execution: flip between two consecutive calls, both directions
 			if ctx.Batch == 0 {
 				c18Flip(ctx, dir)
+				c18Retarget(ctx, dir)
 				c18Config(ctx, dir)
 			}
 		}
@@ -258,6 +259,63 @@ func c18Flip(ctx *Ctx, dir string) {
 			}
 		}
 	}
+}
+
+// c18Retarget: the executable is configured through a symlink that is re-pointed between two executions
+// (the old target stays in place): the check must follow the link as it is now.
+func c18Retarget(ctx *Ctx, dir string) {
+	marker := filepath.Join(dir, "marker-rt")
+	mk := func(name string, uid, gid int, mode os.FileMode, out string) string {
+		p := filepath.Join(dir, name)
+		_ = os.Remove(p)
+		_ = os.WriteFile(p, []byte("#!/bin/sh\necho "+name+" >> "+marker+"\necho "+out+"\n"), 0700)
+		_ = os.Chown(p, uid, gid)
+		_ = os.Chmod(p, mode)
+		return p
+	}
+	good := mk("rt-good", 0, 0, 0o755, "11")
+	bads := []string{mk("rt-bad-owner", 1000, 1000, 0o755, "22"), mk("rt-bad-group", 0, 1000, 0o775, "33"), mk("rt-bad-other", 0, 0, 0o757, "44")}
+	link := filepath.Join(dir, "rt-link")
+	point := func(target string) {
+		_ = os.Remove(link)
+		_ = os.Symlink(target, link)
+	}
+	for _, bad := range bads {
+		for _, order := range [][]string{{good, bad, good}, {bad, good, bad}, {good, good, bad, bad, good}} {
+			for _, via := range []string{"SafeCmdExecution", "CmdSensor", "CmdFan.GetPwm"} {
+				for step, target := range order {
+					point(target)
+					before := readLines(marker)
+					out, cerr, pmsg := c18Invoke(via, link)
+					after := readLines(marker)
+					ctx.Eval(1)
+					ranWhat := ""
+					if len(after) > len(before) {
+						ranWhat = after[len(after)-1]
+					}
+					permitted := target == good
+					desc := fmt.Sprintf("via %s: link -> %v, step %d points to %s: ran %q out %q err %v", via, baseNames(order), step, filepath.Base(target), ranWhat, out, cerr)
+					switch {
+					case !permitted && ranWhat != "":
+						ctx.Violation("retargeted-symlink:executed-although-not-permitted", desc, desc)
+					case !permitted && (cerr == nil || pmsg != ""):
+						ctx.Violation("retargeted-symlink:not-permitted-but-no-error", desc, desc)
+					case permitted && (ranWhat != filepath.Base(good) || cerr != nil):
+						ctx.Violation("retargeted-symlink:permitted-target-not-executed", desc, desc)
+					}
+				}
+				ctx.Nontrivial(fmt.Sprintf("retarget:%s:%v:%s", filepath.Base(bad), baseNames(order), via))
+			}
+		}
+	}
+}
+
+func baseNames(ps []string) []string {
+	var out []string
+	for _, p := range ps {
+		out = append(out, filepath.Base(p))
+	}
+	return out
 }
 
 // c18Config: the configuration file itself must pass the same test whenever it
